@@ -72,6 +72,20 @@ func verifNewIndex(dim int, c verifCfg) *Hnsw {
 		HnswHeuristicExtendCandidates(c.extend), HnswHeuristicKeepPruned(c.keep))
 }
 
+// verifNewIndexWith leaves the link budgets to the given options (and to the
+// defaults of newHnswConfig for those not given).
+func verifNewIndexWith(dim int, c verifCfg, budgets ...HnswOption) *Hnsw {
+	alg := HnswSearchSimple
+	if c.heuristic {
+		alg = HnswSearchHeuristic
+	}
+	opts := append([]HnswOption{}, budgets...)
+	opts = append(opts, HnswEf(c.ef), HnswEfConstruction(c.efC),
+		HnswLevelMultiplier(1), HnswSearchAlgorithm(alg),
+		HnswHeuristicExtendCandidates(c.extend), HnswHeuristicKeepPruned(c.keep))
+	return NewHnsw(uint(dim), space.NewManhattan(), opts...)
+}
+
 // verifVector draws a dim-dimensional vector of grid floats (integers 0..hi).
 func verifVector(name string, dim, hi int) math.Vector {
 	v := make(math.Vector, dim)
